@@ -22,8 +22,11 @@ BySubj == {"subj"}
 ByGrp == {"grp"}
 ByBoth == {"subj", "grp"}
 \* x |-> (a x + b) / c : identity, halving, tripling, two affine maps
-XfAll == {<<1, 0, 1>>, <<1, 0, 2>>, <<3, 0, 1>>, <<1, 5, 2>>, <<3, 1, 1>>}
-XfFew == {<<1, 0, 1>>, <<1, 0, 2>>, <<3, 1, 1>>}
+XfAll == {<<1, 0, 1, 0>>, <<1, 0, 2, 0>>, <<3, 0, 1, 0>>, <<1, 5, 2, 0>>, <<3, 1, 1, 0>>}
+XfFew == {<<1, 0, 1, 0>>, <<1, 0, 2, 0>>, <<3, 1, 1, 0>>}
+\* extreme factors (fourth component = decimal exponent): 1e-26 (MEG, T^2), 1e-13, 1e+12, one RDM or all of them
+XfExtreme == {<<1, 0, 1, 0>>, <<1, 0, 1, -26>>, <<1, 0, 1, -13>>, <<1, 0, 1, 12>>, <<3, 1, 1, -26>>}
+XfExtreme3 == {<<1, 0, 1, 0>>, <<1, 0, 1, -26>>, <<3, 1, 1, 12>>}
 XfNone == {}
 AnyBy == {}
 ByFew == {<<"subj", "index">>, <<"grp", "cond">>, <<"index", "cond">>}
@@ -40,7 +43,9 @@ CvCat34 == {Case(1, "random", "subj", "index", 1, 3, TRUE, << <<Id3, Id4>>, <<Re
             Case(1, "random", "subj", "cond", 1, 3, TRUE, << <<Rev3, Rot4>>, <<Id3, Id4>> >>),
             Case(1, "k_fold", "subj", "index", 3, 1, FALSE, <<Id3, Id4, Id4, Id4>>),
             Case(1, "loo_rdm", "subj", "", 0, 0, FALSE, <<>>),
-            Case(1, "random", "subj", "index", 2, 3, TRUE, << <<Id3, Rot4>>, <<Rev3, Id4>> >>)}
+            Case(1, "random", "subj", "index", 2, 3, TRUE, << <<Id3, Rot4>>, <<Rev3, Id4>> >>),
+            \* test folds of UNEQUAL size (RDMs {1,3} / {2}): the bound is the mean of the per-fold means
+            Case(1, "k_fold", "subj", "index", 2, 1, FALSE, <<Id3, Id4, Id4>>)}
 Var1 == {1}
 Var13 == {1, 3}
 Var123 == {1, 2, 3}
